@@ -407,6 +407,30 @@ func firstLine(s string) string {
 	return s
 }
 
+func structLiteralInvocation(r *ev.Run) {
+	p := progen.Dataflow(progen.DataflowParams{Kind: "cstruct", Src: "gen", Size: 2, Cons: "id"})
+	if p == nil {
+		return
+	}
+	p.Structs = append(p.Structs, &progen.StructDecl{Name: "WM", Fields: []progen.Param{
+		{T: progen.IntT, Name: "x"}, {T: progen.MapT, Name: "um"}, {T: progen.TMapOf(progen.IntT), Name: "tm"}, {T: progen.StructT("C"), Name: "c"}}})
+	p.Stages = append(p.Stages,
+		&progen.Stage{Name: "MK", Fn: "GEN", Ins: []progen.Param{{T: progen.IntT, Name: "n"}},
+			Outs: []progen.Param{{T: progen.MapT, Name: "um"}, {T: progen.TMapOf(progen.IntT), Name: "tm"}}},
+		&progen.Stage{Name: "TAKE_WM", Fn: "ID", Ins: []progen.Param{{T: progen.StructT("WM"), Name: "x"}}, Outs: []progen.Param{{T: progen.StructT("WM"), Name: "y"}}})
+	top := p.Pipeline("TOP")
+	top.Calls = append(top.Calls,
+		&progen.Call{Callee: "MK", Binds: []progen.Bind{{Name: "n", E: progen.Self("n")}}},
+		&progen.Call{Callee: "TAKE_WM", Binds: []progen.Bind{{Name: "x", E: progen.StructE(
+			[]string{"x", "um", "tm", "c"},
+			[]*progen.Exp{progen.Lit(progen.Int(1)), progen.Ref("MK", "um"), progen.Ref("MK", "tm"),
+				progen.StructE([]string{"a", "sa", "ma"}, []*progen.Exp{progen.Ref("GEN", "one"), progen.Ref("GEN", "ss"), progen.Ref("GEN", "ms")})})}}})
+	top.Outs = append(top.Outs, progen.Param{T: progen.StructT("WM"), Name: "wm"})
+	top.Ret = append(top.Ret, progen.Bind{Name: "wm", E: progen.Ref("TAKE_WM", "y")})
+	p.Desc = "struct-literal-with-map-members-from-upstream"
+	checkForkInvocations(r, p, p.Desc)
+}
+
 // forkInvocations: per-fork _invocation files of real runs.
 func forkInvocations(r *ev.Run) {
 	core.VerifQuiet()
@@ -441,6 +465,9 @@ func forkInvocations(r *ev.Run) {
 			progs = append(progs, d)
 		}
 	}
+	// a struct literal whose members (a struct, an array of structs, a typed
+	// map of structs, an untyped map) are bound to upstream outputs
+	structLiteralInvocation(r)
 	for _, d := range progs {
 		if r.Expired("fork invocations") {
 			break
@@ -449,6 +476,13 @@ func forkInvocations(r *ev.Run) {
 		if p == nil {
 			continue
 		}
+		checkForkInvocations(r, p, d.String())
+	}
+}
+
+func checkForkInvocations(r *ev.Run, p *progen.Program, name string) {
+	{
+		d := nameStringer(name)
 		res := psx.Run(p, psx.Schedule{}, psx.Options{Inspect: func(res *psx.Result) {
 			if res.State != "complete" {
 				return
@@ -497,6 +531,10 @@ func forkInvocations(r *ev.Run) {
 	}
 }
 
+type nameStringer string
+
+func (n nameStringer) String() string { return string(n) }
+
 func main() {
 	r := ev.New("C16", "exploration")
 	r.SetBudget(90*time.Second, 15*time.Minute)
@@ -528,7 +566,7 @@ func main() {
 		r.Sample(c)
 		if len(c.Values) == 0 {
 			r.Set("mrg_binary_round_trips", atomic.LoadInt64(&mrgRuns))
-	forkInvocations(r)
+			forkInvocations(r)
 		} else {
 			for _, f := range check(c) {
 				r.Report(f)
